@@ -5,7 +5,6 @@ import (
 	"math/rand"
 	"os"
 	"sync"
-	"sync/atomic"
 	"testing"
 	"time"
 
@@ -46,15 +45,25 @@ func concurrentC15(t *testing.T, r *ev.Run) {
 						b = b.Synchronous().WithExpiry(200 * time.Microsecond)
 					}
 					c := b.Build()
-					var nextKey atomic.Int64
-					var deleted sync.Map // key -> number of Deletes that returned true
-					var problems sync.Map
-					note := func(sig, f string, a ...any) {
-						problems.LoadOrStore(sig, fmt.Sprintf("%s round %d: ", name, round)+fmt.Sprintf(f, a...))
+					// no shared harness state on the workers' hot path (it would order the workers and hide unsynchronised
+					// accesses inside the cache from the race detector): worker g owns the keys g*stride+1.., remembers its
+					// own successful deletes and problems, and guesses the other workers' progress from its own
+					const stride = 1 << 20
+					valOf := func(k int) int { return k*7 + 1 }
+					type local struct {
+						sets     int
+						deleted  map[int]int
+						problems [][2]string
 					}
+					locals := make([]*local, workers)
 					var wg sync.WaitGroup
 					for g := 0; g < workers; g++ {
 						g := g
+						lc := &local{deleted: map[int]int{}}
+						locals[g] = lc
+						note := func(sig, f string, a ...any) {
+							lc.problems = append(lc.problems, [2]string{sig, fmt.Sprintf("%s round %d: ", name, round) + fmt.Sprintf(f, a...)})
+						}
 						wg.Add(1)
 						go func() {
 							defer wg.Done()
@@ -64,29 +73,35 @@ func concurrentC15(t *testing.T, r *ev.Run) {
 								}
 							}()
 							rng := rand.New(rand.NewSource(ev.Seed()*1009 + int64(round*97+g)))
+							pick := func(span int) int {
+								// a recently set key of some worker (its progress is assumed to be like ours)
+								if lc.sets == 0 {
+									return 0
+								}
+								og := rng.Intn(workers)
+								return og*stride + 1 + (lc.sets - 1 - rng.Intn(min(lc.sets, span)))
+							}
 							for i := 0; i < opsPer/workers; i++ {
 								switch x := rng.Intn(10); {
 								case x < 4:
-									k := int(nextKey.Add(1))
-									c.Set(k, k*7+1)
+									k := g*stride + 1 + lc.sets
+									lc.sets++
+									c.Set(k, valOf(k))
 								case x < 9:
-									hi := int(nextKey.Load())
-									if hi == 0 {
+									k := pick(2*cp/workers + 3)
+									if k == 0 {
 										continue
 									}
-									k := hi - rng.Intn(min(hi, 2*cp+3))
-									if v, ok := c.Get(k); ok && v != k*7+1 {
-										note("get-wrong-value:"+pol, "Get(%d) returned %d, the only value ever set for that key is %d", k, v, k*7+1)
+									if v, ok := c.Get(k); ok && v != valOf(k) {
+										note("get-wrong-value:"+pol, "Get(%d) returned %d, the only value ever set for that key is %d", k, v, valOf(k))
 									}
 								default:
-									hi := int(nextKey.Load())
-									if hi == 0 {
+									k := pick(cp/workers + 2)
+									if k == 0 {
 										continue
 									}
-									k := hi - rng.Intn(min(hi, cp+2))
 									if c.Delete(k) {
-										n, _ := deleted.LoadOrStore(k, new(atomic.Int32))
-										n.(*atomic.Int32).Add(1)
+										lc.deleted[k]++
 									}
 								}
 								if i%64 == 0 {
@@ -105,39 +120,57 @@ func concurrentC15(t *testing.T, r *ev.Run) {
 						r.Inconclusive(fmt.Sprintf("concurrent %s round %d: workers did not finish within 120 s of wall clock (hang or starved machine)", name, round))
 						return
 					}
+					var closeProblems [][2]string
 					func() {
 						defer func() {
 							if p := recover(); p != nil {
-								note("panic:"+pol+":concurrent", "Close panicked: %v", p)
+								closeProblems = append(closeProblems, [2]string{"panic:" + pol + ":concurrent", fmt.Sprintf("%s round %d: Close panicked: %v", name, round, p)})
 							}
 						}()
 						if err := c.Close(); err != nil {
-							note("close-error:"+pol, "Close returned %v", err)
+							closeProblems = append(closeProblems, [2]string{"close-error:" + pol, fmt.Sprintf("%s round %d: Close returned %v", name, round, err)})
 						}
 					}()
 					// asynchronous callbacks: wait (bounded) until every key is accounted for
-					total := int(nextKey.Load())
+					deleted := map[int]int{}
+					total := 0
+					var problems [][2]string
+					for _, lc := range locals {
+						total += lc.sets
+						for k, n := range lc.deleted {
+							deleted[k] += n
+						}
+						problems = append(problems, lc.problems...)
+					}
+					note := func(sig, f string, a ...any) {
+						problems = append(problems, [2]string{sig, fmt.Sprintf("%s round %d: ", name, round) + fmt.Sprintf(f, a...)})
+					}
 					fate := func() (missing, twice, both, wrong int) {
 						mu.Lock()
 						defer mu.Unlock()
-						for k := 1; k <= total; k++ {
-							d := 0
-							if n, ok := deleted.Load(k); ok {
-								d = int(n.(*atomic.Int32).Load())
-							}
-							vs := cbs[k]
-							for _, v := range vs {
-								if v != k*7+1 {
-									wrong++
+						for g, lc := range locals {
+							for j := 0; j < lc.sets; j++ {
+								k := g*stride + 1 + j
+								d := deleted[k]
+								vs := cbs[k]
+								for _, v := range vs {
+									if v != valOf(k) {
+										wrong++
+									}
+								}
+								switch {
+								case len(vs)+d == 0:
+									missing++
+								case len(vs) > 1 || d > 1:
+									twice++
+								case len(vs) == 1 && d == 1:
+									both++
 								}
 							}
-							switch {
-							case len(vs)+d == 0:
-								missing++
-							case len(vs) > 1 || d > 1:
-								twice++
-							case len(vs) == 1 && d == 1:
-								both++
+						}
+						for k, vs := range cbs {
+							if g := (k - 1) / stride; k < 1 || g >= workers || (k-1)%stride >= locals[g].sets {
+								wrong += len(vs) // a callback for a key nobody ever set
 							}
 						}
 						return
@@ -169,10 +202,13 @@ func concurrentC15(t *testing.T, r *ev.Run) {
 							note("callback-missing:"+pol, "%d of %d entries left the cache (it is closed) without any eviction callback", missing, total)
 						}
 					}
-					problems.Range(func(k, v any) bool {
-						r.Violation(k.(string), v.(string), map[string]any{"engine": "cachemodel/concurrent", "variant": name, "round": round})
-						return true
-					})
+					seenSig := map[string]bool{}
+					for _, pr := range append(problems, closeProblems...) {
+						if !seenSig[pr[0]] {
+							seenSig[pr[0]] = true
+							r.Violation(pr[0], pr[1], map[string]any{"engine": "cachemodel/concurrent", "variant": name, "round": round})
+						}
+					}
 					if total > cp {
 						r.Distinct("concurrent|" + name)
 					}
